@@ -109,7 +109,7 @@ def observe_io(graph, sd):
     root = rng.choice(sorted(objs))
     ro = objs[root]
     ids0 = {n: (o.__xpm__.raw_identifier.all, o.__xpm__.full_identifier.all) for n, o in objs.items()}
-    case = {"g": graph, "streams": {}, "loops": {}, "pre": {}, "sealed": {}, "gen": {}, "defs": {}, "inst": {}}
+    case = {"g": graph, "streams": {}, "loops": {}, "pre": {}, "sealed": {}, "gen": {}, "defs": {}, "inst": {}, "sstreams": {}}
 
     # --- the definition list
     defs = ro.__xpm__.__get_objects__([], SerializationContext())
